@@ -92,7 +92,7 @@ def gen_uses(rng, has_total, tv, tot_unit):
 def gen_split(rng):
     tot_unit = rng.choice(UN)
     tv = rng.choice([1, 2, 10, 100, 250, 0.5, 1.5, 20.0, Fraction(3, 2), 500, 0, 0.0])
-    kind = rng.choice(["ing", "ing", "ing", "step", "noqty", "two", "named", "named2", "multi"])
+    kind = rng.choice(["ing", "ing", "ing", "step", "noqty", "two", "named", "named2", "multi", "titled"])
     name = "thing"
     if kind == "ing":
         lines = ["%s %s" % (fmt_qty(tv, tot_unit), name)]
@@ -106,6 +106,9 @@ def gen_split(rng):
         lines = ["%s = %s raw" % (name, fmt_qty(tv, tot_unit))]
     elif kind == "named2":
         lines = ["%s := %s raw, chopped" % (name, fmt_qty(tv, tot_unit))]
+    elif kind == "titled":
+        # a titled sub recipe folded into the split one: the linter looks through single-input steps only, not through a title - no known total
+        lines = ["base := %s raw%s" % (fmt_qty(tv, tot_unit), rng.choice(["", ", sieved"])), "%s = %s" % (name, rng.choice(["base, boiled down", "reduce(base)", "base, boiled, cooled"]))]
     else:
         lines = ["%s, other = split(%s raw)" % (name, fmt_qty(tv, tot_unit))]
     has_total = kind in ("ing", "step", "named", "named2")
@@ -417,8 +420,10 @@ EXPECTED = [
     (["100g spam\nfried spam = fry(spam)\nmeal = boil(fried spam)\nserve(50g of meal)\nfreeze(50 g of meal)"], []),
     (["100g spam\nfried spam = fry(spam)\nmeal = boil(fried spam)\nserve(50g of meal)"], ["sub_recipe_not_used_up"]),
     (["100g spam\nfried spam = fry(spam)\nmeal = boil(fried spam)\nserve(60g of meal)\nfreeze(60g of meal)"], ["sub_recipe_used_too_much"]),
-    # (with a titled link - 'fried spam := ...' - the linter does not look through the title and reports an unknown total for two partial uses,
-    #  while the compiler does look through it when it decides whether one use takes the whole: undocumented either way, not claimed)
+    # with a titled link - 'passata := ...' - the linter does not look through the title: two partial uses by quantity have no known total
+    # (the compiler does look through it when it decides whether one use takes the whole)
+    (["passata := 400g tomatoes, sieved\nsauce = passata, boiled down\npizza = top(base, 200g of sauce)\ndip = mix(100g of sauce, herbs)\nserve(pizza, dip)"],
+     ["sub_recipe_quantity_unknown", "sub_recipe_quantity_unknown"]),
     # every documented spelling of the remainder
     (["1 kg x\nf(1/2 of x)\ng(leftover x)"], []), (["1 kg x\nf(1/2 of x)\ng(Leftover x, salt)"], []), (["1 kg x\nf(1/2 of x)\ng(left over x)"], []),
     (["1 kg x\nf(1 kg x)\ng(leftover x)"], ["sub_recipe_reference_non_positive_remainder"]), (["1 kg x\nf(remainder of the x)\ng(rest x)"], ["sub_recipe_reference_non_positive_remainder"]),
